@@ -212,6 +212,22 @@ Definition read_import (s : st) : st :=
            else s in
   read_string true s.
 
+(* `import ( ... )` once '(' has been peeked *)
+Definition import_group (s : st) : st :=
+  let (_, s) := next_byte false s in
+  let s :=
+    loop F (fun s => set_fail s FFuel)
+      (fun s => let (c, s) := peek_byte true s in
+                if negb (beq c RPAREN) && no_err s then (read_import s, true) else (s, false))
+      s in
+  snd (next_byte false s).
+
+(* the body of the `for r.peekByte(true) == 'i'` loop *)
+Definition import_decl (s : st) : st :=
+  let s := read_keyword kw_import s in
+  let (c, s) := peek_byte true s in
+  if beq c LPAREN then import_group s else read_import s.
+
 (* the body of ReadImports up to the final bookkeeping *)
 Definition scan_imports (s : st) : st :=
   let s := read_keyword kw_package s in
@@ -219,21 +235,7 @@ Definition scan_imports (s : st) : st :=
   loop F (fun s => set_fail s FFuel)
     (fun s =>
        let (c, s) := peek_byte true s in
-       if beq c LOWER_I then
-         let s := read_keyword kw_import s in
-         let (c, s) := peek_byte true s in
-         let s :=
-           if beq c LPAREN then
-             let (_, s) := next_byte false s in
-             let s :=
-               loop F (fun s => set_fail s FFuel)
-                 (fun s => let (c, s) := peek_byte true s in
-                           if negb (beq c RPAREN) && no_err s then (read_import s, true) else (s, false))
-                 s in
-             snd (next_byte false s)
-           else read_import s in
-         (s, true)
-       else (s, false))
+       if beq c LOWER_I then (import_decl s, true) else (s, false))
     s.
 
 (* the final part of ReadImports: the state after it, the bytes and the error returned.
